@@ -347,14 +347,13 @@ theorem fact_date_tables :
 /-- the conversions: milliseconds are split with integer division, $toMillis does not go through
     64-bit nanoseconds, the week is the ISO week, integers are rendered by FormatNumber -/
 theorem fact_date_functions :
-    (eventsOf "msToTime").contains "call:Unix" = true ∧ (eventsOf "msToTime").contains "call:float64" = false ∧
-    (eventsOf "timeToMS").contains "call:UnixNano" = false ∧ (eventsOf "timeToMS").contains "call:Unix" = true ∧
-    (eventsOf "formatWeekInYear").contains "call:ISOWeek" = true ∧
-    (eventsOf "formatInteger").contains "call:FormatNumber" = true ∧
-    (eventsOf "FromMillis").contains "call:Unix" = true ∧
+    (eventsOf "FromMillis").contains "call:Unix" = true ∧ (eventsOf "FromMillis").contains "call:float64" = false ∧
+    (eventsOf "ToMillis").contains "call:UnixNano" = false ∧ (eventsOf "ToMillis").contains "call:Unix" = true ∧
+    (eventsOf "jxpath.FormatTime").contains "call:ISOWeek" = true ∧
+    (eventsOf "jxpath.FormatTime").contains "call:FormatNumber" = true ∧
     (eventsOf "FromMillis").contains "call:FixedZone" = true ∧ (eventsOf "FromMillis").contains "call:In" = true ∧
     (eventsOf "FromMillis").contains "call:FormatTime" = true ∧
-    (eventsOf "parseTime").contains "call:Parse" = true := by
+    (eventsOf "ToMillis").contains "call:Parse" = true := by
   decide
 
 /-- one clock reading per evaluation: the (inlined) construction of an evaluation's environment
